@@ -32,8 +32,10 @@ has been closed since, and the eager form keeps the model state canonical (no de
 somebody first asked for the channel), which keeps the state sets of the inclusion check small.
 
 The job queue (`linkedlist.LinkedList`, property C12) is abstracted as a `List` of job ids: `Push` =
-append, `Pop` = head. `running`, `jobQueueSize` and the limit are `Int` as in the code. Ghost fields
-(`seq`, `nseq`, `nasg`) number the jobs in the order of their enqueue sections and count assignments.
+append, `Pop` = head. `running`, `jobQueueSize` and the limit are `Int` as in the code. Ghost fields:
+`seq`, `nseq`, `nasg` number the jobs in the order of their enqueue steps and count assignments to
+workers; `owner`, `starts` record the announcing call and the number of entries of a job; `n0` in a
+`WaitIdle` call's state is `nseq` at its invocation. No enabledness condition reads a ghost field.
 -/
 namespace UtilModel.Conc
 open UtilModel
@@ -51,6 +53,10 @@ structure Job where
   st : JS
   /-- ghost: number of jobs whose enqueue step ran before this one's -/
   seq : Option Nat := none
+  /-- ghost: the call that announced the job -/
+  owner : Nat := 0
+  /-- ghost: how often the job has been entered -/
+  starts : Nat := 0
 deriving DecidableEq, Repr, Inhabited
 
 /-- worker goroutine (`executeJob`) -/
@@ -80,9 +86,9 @@ inductive TS where
   | newDone
   | enqInv (js : List Nat)
   | enqDone (q r : Int)
-  | wiInv
-  | wiParked (ch : Nat)
-  | wiDone (r : Res)
+  | wiInv (n0 : Nat)               -- n0 (ghost): number of jobs enqueued when WaitIdle was invoked
+  | wiParked (n0 : Nat) (ch : Nat)
+  | wiDone (r : Res) (n0 : Nat)
   | wsInv
   | wsCb (q r : Int) (ch : Nat)
   | wsParked (q r : Int) (ch : Nat)
@@ -198,6 +204,12 @@ def setJobSt (jobs : List Job) (j : Nat) (st : JS) : List Job :=
   | some jb => jobs.set j { jb with st := st }
   | none => jobs
 
+/-- the job is entered -/
+def startJob (jobs : List Job) (j : Nat) : List Job :=
+  match jobs[j]? with
+  | some jb => jobs.set j { jb with st := .active, starts := jb.starts + 1 }
+  | none => jobs
+
 /-- body of the `Enqueue` loop for one job (queue.go:49-55) -/
 def place (s : St) (j : Nat) : St :=
   if hasRoom s then
@@ -225,7 +237,8 @@ def update (s : St) : Nat → St
                         nasg := s.nasg + 1 } n
     else s
 
-def newJobs (js : List (Nat × Bool)) : List Job := js.map fun p => { isNil := p.2, st := .fresh }
+def newJobs (t : Nat) (js : List (Nat × Bool)) : List Job :=
+  js.map fun p => { isNil := p.2, st := .fresh, owner := t }
 
 def firstMail (mail : List (Nat × Msg)) (t : Nat) : Option Msg :=
   (mail.find? (·.1 == t)).map (·.2)
@@ -236,13 +249,13 @@ def dropMail (mail : List (Nat × Msg)) (t : Nat) : List (Nat × Msg) :=
   | m :: ms => if m.1 == t then ms else m :: dropMail ms t
 
 def TS.quiet (s : St) (t : Nat) : TS → Bool
-  | .wiParked ch => !s.bc.closed ch && !s.cx.contains t && (firstMail s.mail t).isNone
+  | .wiParked _ ch => !s.bc.closed ch && !s.cx.contains t && (firstMail s.mail t).isNone
   | .wsParked _ _ ch => !s.bc.closed ch && !s.cx.contains t
   | .finished => true
   | _ => false
 
 def TS.parked : TS → Bool
-  | .wiParked _ | .wsParked _ _ _ => true
+  | .wiParked _ _ | .wsParked _ _ _ => true
   | _ => false
 
 def WSt.quiet : WSt → Bool
@@ -269,9 +282,9 @@ def idsOK (js : List (Nat × Bool)) (first : Nat) : Bool :=
   js.map (·.1) == List.range' first js.length
 
 /-- the sample section of `WaitIdle` (queue.go:72-77) -/
-def wiSample (s : St) (t : Nat) : St :=
-  if s.running = 0 ∧ s.qsize = 0 then { s with th := s.th.set t (.wiDone .nil) }
-  else { s with bc := s.bc.getWaitCh.1, th := s.th.set t (.wiParked s.bc.getWaitCh.2) }
+def wiSample (s : St) (t n0 : Nat) : St :=
+  if s.running = 0 ∧ s.qsize = 0 then { s with th := s.th.set t (.wiDone .nil n0) }
+  else { s with bc := s.bc.getWaitCh.1, th := s.th.set t (.wiParked n0 s.bc.getWaitCh.2) }
 
 /-- the sample section of `WatchState` (queue.go:118-121) -/
 def wsSample (s : St) (t : Nat) : St :=
@@ -280,7 +293,7 @@ def wsSample (s : St) (t : Nat) : St :=
 def step (s : St) : Ev → Option St
   | .invNew t L js =>
     if s.created = false ∧ t = s.th.length ∧ idsOK js s.jobs.length then
-      let s1 : St := { s with created := true, limit := L, jobs := s.jobs ++ newJobs js, th := s.th ++ [.newDone] }
+      let s1 : St := { s with created := true, limit := L, jobs := s.jobs ++ newJobs t js, th := s.th ++ [.newDone] }
       let s2 := (js.map (·.1)).foldl pushInit s1
       let s3 := update s2 s2.queue.length
       some (if s3.nasg ≠ s2.nasg then { s3 with bc := bcast s3.bc } else s3)
@@ -291,7 +304,7 @@ def step (s : St) : Ev → Option St
     | _ => none
   | .invEnq t js =>
     if s.created = true ∧ t = s.th.length ∧ idsOK js s.jobs.length then
-      some { s with jobs := s.jobs ++ newJobs js, th := s.th ++ [.enqInv (js.map (·.1))] }
+      some { s with jobs := s.jobs ++ newJobs t js, th := s.th ++ [.enqInv (js.map (·.1))] }
     else none
   | .enqCS t =>
     match s.th[t]? with
@@ -308,7 +321,7 @@ def step (s : St) : Ev → Option St
     match s.ws[w]?, s.jobs[j]? with
     | some (.hasJob j'), some jb =>
       if j = j' ∧ jb.isNil = false then
-        some { s with ws := s.ws.set w (.inJob j), jobs := setJobSt s.jobs j .active }
+        some { s with ws := s.ws.set w (.inJob j), jobs := startJob s.jobs j }
       else none
     | _, _ => none
   | .skipNil w =>
@@ -333,28 +346,28 @@ def step (s : St) : Ev → Option St
                       jobs := setJobSt s.jobs j .assigned, nasg := s.nasg + 1 }
     | _ => none
   | .invWI t =>
-    if s.created = true ∧ t = s.th.length then some { s with th := s.th ++ [.wiInv] } else none
+    if s.created = true ∧ t = s.th.length then some { s with th := s.th ++ [.wiInv s.nseq] } else none
   | .wiCS t =>
     match s.th[t]? with
-    | some .wiInv => some (wiSample s t)
-    | some (.wiParked ch) => if s.bc.closed ch then some (wiSample s t) else none
+    | some (.wiInv n0) => some (wiSample s t n0)
+    | some (.wiParked n0 ch) => if s.bc.closed ch then some (wiSample s t n0) else none
     | _ => none
   | .wiCtx t =>
     match s.th[t]? with
-    | some (.wiParked _) => if s.cx.contains t then some { s with th := s.th.set t (.wiDone .canceled) } else none
+    | some (.wiParked n0 _) => if s.cx.contains t then some { s with th := s.th.set t (.wiDone .canceled n0) } else none
     | _ => none
   | .wiErr t =>
     match s.th[t]? with
-    | some (.wiParked _) =>
+    | some (.wiParked n0 _) =>
       match firstMail s.mail t with
-      | some .err => some { s with mail := dropMail s.mail t, th := s.th.set t (.wiDone .err) }
-      | some .nilErr => some { s with mail := dropMail s.mail t, th := s.th.set t .wiInv }
-      | some .close => some { s with th := s.th.set t (.wiDone .canceled) }
+      | some .err => some { s with mail := dropMail s.mail t, th := s.th.set t (.wiDone .err n0) }
+      | some .nilErr => some { s with mail := dropMail s.mail t, th := s.th.set t (.wiInv n0) }
+      | some .close => some { s with th := s.th.set t (.wiDone .canceled n0) }
       | none => none
     | _ => none
   | .retWI t r =>
     match s.th[t]? with
-    | some (.wiDone r') => if r = r' then some { s with th := s.th.set t .finished } else none
+    | some (.wiDone r' _) => if r = r' then some { s with th := s.th.set t .finished } else none
     | _ => none
   | .invWS t nilcb =>
     if s.created = true ∧ t = s.th.length then
@@ -401,8 +414,8 @@ holds for any `cands`. -/
 def wiEager (s : St) (t : Nat) : Bool :=
   let busy := !(s.running == 0 && s.qsize == 0)
   match s.th[t]? with
-  | some .wiInv => busy
-  | some (.wiParked ch) => busy && s.bc.closed ch
+  | some (.wiInv _) => busy
+  | some (.wiParked _ ch) => busy && s.bc.closed ch
   | _ => false
 
 def nilEager (s : St) (w : Nat) : Bool :=
